@@ -497,6 +497,9 @@ class Machine:
         finally:
             self.solver.pop()
         stats.paths += 1
+        if len(ctx.taken) < len(prefix) and outcome[0] != 'infeasible':
+            raise Unsupported('replay divergence: a re-executed path consumed %d of %d recorded decisions'
+                              % (len(ctx.taken), len(prefix)))
         return ctx, outcome
 
     # ------------------------------------------------------------ calling
@@ -643,6 +646,16 @@ class Machine:
             if not args or name in ('from', 'default', 'from_str', 'try_from'):
                 cands = [g for (sh, sf, g) in impls if sh == ck.selfty]
             if len(cands) >= 1:
+                # blanket impls on references (`impl PartialEq<&B> for &A`, `impl Display for &T` ...): strip the
+                # extra reference levels before entering the impl for the referent type
+                k = self.ref_depth(ck.selfty_full or '')
+                if k and args:
+                    args = list(args)
+                    nstrip = 2 if tr in ('PartialEq', 'PartialOrd', 'Ord') else 1
+                    for i in range(min(nstrip, len(args))):
+                        for _ in range(k):
+                            if isinstance(args[i], Ref) and isinstance(args[i].get(), Ref):
+                                args[i] = args[i].get()
                 return self.call_fn(cands[0], args)
         mdl = MODELS.get(key)
         if mdl is None:
@@ -656,6 +669,18 @@ class Machine:
             raise Unsupported('no model for ' + key + '   [' + path[:160] + ']')
         ctx.stats.models[key] = ctx.stats.models.get(key, 0) + 1
         return mdl(ctx, args, ck)
+
+    @staticmethod
+    def ref_depth(ty):
+        k = 0
+        ty = ty.strip()
+        while ty.startswith('&'):
+            k += 1
+            ty = ty[1:].lstrip()
+            ty = re.sub(r"^'[a-z_0-9]+\s+", '', ty)
+            if ty.startswith('mut '):
+                ty = ty[4:]
+        return k
 
     def runtime_type(self, v):
         if isinstance(v, (Struct, Enum)):
